@@ -325,6 +325,163 @@ def check_exts_case(W, out):
     return r
 
 
+# --------------------------------------------------------------------------- entry-object histories
+SIDE = {1: "ancestor", 2: "this", 3: "other"}
+
+
+def edits_str(eds):
+    def nm(r):
+        b = L.runs_to_bytes(r)
+        return b.decode("latin1") if len(b) <= 8 and b.isalnum() else f"len{len(b)}"
+    return ";".join(f"{e['op']}({nm(e['n'])},{e['a']},{e['b']},{nm(e['m']) if e['m'] else ''})" for e in eds) or "none"
+
+
+def apply_edits(idx, eds):
+    """The edit steps of IndexFmt.tla (Apply) on a real Index, re-using the entry objects it read."""
+    import dataclasses
+
+    from dulwich.index import EXTENDED_FLAG_INTEND_TO_ADD, ConflictedIndexEntry
+    for e in eds:
+        op, n, a, b = e["op"], L.runs_to_bytes(e["n"]), e["a"], e["b"]
+        m = L.runs_to_bytes(e["m"]) if e["m"] else b""
+        if op == "resolve":
+            idx[n] = getattr(idx[n], SIDE[a])
+        elif op == "swap":
+            conf = idx[n]
+            x, y = getattr(conf, SIDE[a]), getattr(conf, SIDE[b])
+            setattr(conf, SIDE[a], y)
+            setattr(conf, SIDE[b], x)
+        elif op == "move":
+            idx[m] = idx[n]
+            del idx[n]
+        elif op == "toslot":
+            src = dataclasses.replace(idx[n])
+            if m in idx:
+                setattr(idx[m], SIDE[b], src)
+            else:
+                idx[m] = ConflictedIndexEntry(**{SIDE[b]: src})
+        else:
+            obj = idx[n] if a == 0 else getattr(idx[n], SIDE[a])
+            if op == "setskip":
+                obj.set_skip_worktree(True)
+            elif op == "clearskip":
+                obj.set_skip_worktree(False)
+            elif op == "setita":
+                obj.extended_flags |= EXTENDED_FLAG_INTEND_TO_ADD
+            elif op == "clearita":
+                obj.extended_flags &= ~EXTENDED_FLAG_INTEND_TO_ADD
+            else:
+                raise MachineryError(f"unknown edit {op}")
+
+
+def pick_edits(rng, listing, k):
+    """k random enabled edits for an index with the given entries (EditOK is re-checked by TLC)."""
+    mem = {(L.runs_to_bytes(e["name"]), e["stage"]): {"skip": e["skip"], "ita": e["ita"]} for e in listing}
+    out = []
+    for i in range(k):
+        conf = sorted({n for (n, s) in mem if s > 0})
+        norm = sorted({n for (n, s) in mem if s == 0})
+        by = {"resolve": [], "swap": [], "move": [], "toslot": [], "flag": []}
+        for (n, s) in sorted(mem):
+            if s > 0:
+                by["resolve"].append(("resolve", n, s, 0, b""))
+                by["swap"] += [("swap", n, s, b, b"") for b in (1, 2, 3) if b != s and ((n, b) not in mem or s < b)]
+            st = mem[(n, s)]
+            by["flag"].append(("clearskip" if st["skip"] else "setskip", n, s, 0, b""))
+            by["flag"].append(("clearita" if st["ita"] else "setita", n, s, 0, b""))
+        new = b"zz-moved-%d" % i
+        by["move"] = [("move", n, 0, 0, new) for n in conf + norm]
+        by["toslot"] = [("toslot", n, 0, b, m) for n in norm for m in conf + [b"zz-slot-%d" % i] for b in (1, 2, 3) if m != n]
+        kinds = [k2 for k2 in ("resolve", "resolve", "swap", "swap", "move", "toslot", "toslot", "flag") if by[k2]]
+        if not kinds:
+            break
+        op, n, a, b, m = rng.choice(by[rng.choice(kinds)])
+        out.append({"op": op, "n": L.bytes_to_runs(n), "a": a, "b": b, "m": L.bytes_to_runs(m)})
+        if op == "resolve":
+            o = mem[(n, a)]
+            for s in (1, 2, 3):
+                mem.pop((n, s), None)
+            mem[(n, 0)] = o
+        elif op == "swap":
+            x, y = mem.pop((n, a)), mem.pop((n, b), None)
+            mem[(n, b)] = x
+            if y is not None:
+                mem[(n, a)] = y
+        elif op == "move":
+            for s in (0, 1, 2, 3):
+                if (n, s) in mem:
+                    mem[(m, s)] = mem.pop((n, s))
+        elif op == "toslot":
+            mem[(m, b)] = dict(mem[(n, 0)])
+        elif op in ("setskip", "clearskip"):
+            mem[(n, a)]["skip"] = op == "setskip"
+        else:
+            mem[(n, a)]["ita"] = op == "setita"
+    return out
+
+
+def check_hist_case(W, out):
+    """A TLC-enumerated history: the base index is written (by dulwich, and as the specification lays it
+    out = git's format), read by Index(), edited by re-slotting the objects that were read, written again."""
+    from dulwich.index import Index
+    r = {"fails": [], "drift": None, "mach": None, "execs": 0, "damage": 0}
+    h = out["h"]
+    expect, want = out["expect"], L.render(out["fields"])
+    base_spec = L.render(h["bfields"])
+    bases = [("git-format base", base_spec)]
+    p = W.path("h")
+    try:
+        b_dw = L.dw_write(p, out["v"], out["skip"], h["bins"])
+        if b_dw != base_spec:
+            bases.append(("dulwich-written base", b_dw))
+    except Exception as e:  # noqa: BLE001
+        r["fails"].append((f"WriteRaises({exc_name(e)})", f"writing the base index raised {exc_name(e)}: {e}"))
+    checked_git = False
+    for what, base in bases:
+        with open(p, "wb") as f:
+            f.write(base)
+        try:
+            idx = Index(p)
+            apply_edits(idx, h["eds"])
+        except Exception as e:  # noqa: BLE001
+            r["fails"].append(("ReadsGit(history)", f"{what}: reading / editing raised {exc_name(e)}: {e}"))
+            continue
+        try:
+            idx.write()
+        except Exception as e:  # noqa: BLE001
+            r["fails"].append((f"WriteRaises({exc_name(e)})", f"{what}: Index.write after {edits_str(h['eds'])} raised {exc_name(e)}: {e}"))
+            continue
+        r["execs"] += 1
+        with open(p, "rb") as f:
+            b = f.read()
+        try:
+            _, rb = L.dw_read(p)
+            if not same_set(rb, expect):
+                r["fails"].append(("RoundTrip(history)", f"{what}, edits {edits_str(h['eds'])}: re-read yields {[L.describe(e) for e in rb][:5]} "
+                                   f"expected {[L.describe(e) for e in expect][:5]}"))
+        except Exception as e:  # noqa: BLE001
+            r["fails"].append(("RoundTrip(history)", f"{what}: re-read raised {exc_name(e)}: {e}"))
+        pj = L.proj_parse(b)
+        if pj["ok"] and (not L.ordered_keys(pj["entries"]) or len(pj["entries"]) != len(expect)):
+            r["fails"].append(("Order(history)", f"{what}, edits {edits_str(h['eds'])}: keys in the file {[L.entry_key(e) for e in pj['entries']][:6]}"))
+        if trailer_status(b) != "sha1":
+            r["fails"].append(("Checksum", f"trailer is {trailer_status(b)}"))
+        if W.git and not (b == want and checked_git):
+            gl, err = W.git.ls(p)
+            if gl != expect:
+                if b == want:
+                    r["mach"] = f"git disagrees with the specification's layout of an edited index: {err or [L.describe(e) for e in (gl or [])][:5]}"
+                else:
+                    r["fails"].append(("GitLists(history)", f"{what}, edits {edits_str(h['eds'])}: git ls-files "
+                                       + (err if gl is None else f"{[L.describe(e) for e in gl][:5]} expected {[L.describe(e) for e in expect][:5]}")))
+            checked_git = checked_git or b == want
+        if b != want and not r["fails"]:
+            r["drift"] = f"file written after edits {edits_str(h['eds'])} differs from the specified layout while every observable agrees"
+    if os.path.exists(p):
+        os.unlink(p)
+    return r
+
+
 # --------------------------------------------------------------------------- mode R: pool plumbing
 _W = None
 
@@ -358,7 +515,8 @@ def _run_blocks(args):
             res["nontrivial"] += 1
         key = _case_key(out)
         dmg = damage_mod and (zlib.crc32(b.encode()) % damage_mod == 0)
-        r = check_exts_case(W, out) if out["exts"] else check_case(W, out, do_damage=dmg)
+        hist = out["h"]["hist"]
+        r = check_hist_case(W, out) if hist else check_exts_case(W, out) if out["exts"] else check_case(W, out, do_damage=dmg)
         res["execs"] += r["execs"]
         res["damage"] += r["damage"]
         if r["mach"]:
@@ -379,7 +537,11 @@ def _run_blocks(args):
                 if kept.get(k, 0) < 2 or not feats:
                     kept[k] = kept.get(k, 0) + 1
                     keep_out = out
+            if hist:
+                keep_out = out
+                key = (key[0], key[1], key[2] | {(b"\0history " + edits_str(out["h"]["eds"]).encode(), out["h"]["bv"])})
             res["fail"].append({"key": (key[0], key[1], sorted(key[2])), "effv": out["effv"], "clauses": clauses,
+                                "hist": (f"history base={compact(out['h']['bins'], 6)} edits={edits_str(out['h']['eds'])}" if hist else None),
                                 "ents": [{k2: e[k2] for k2 in e} for e in out["ins"]] if len(out["ins"]) <= 3 else None,
                                 "out": keep_out, "exts": len(out["exts"])})
     return res
@@ -398,10 +560,11 @@ def run_family(ctx, fam, cfg_consts, damage_mod):
     import re
     with open(dump + ".dump", encoding="utf-8") as f:
         text = f.read()
-    blocks = [b for b in re.split(r"^State \d+:\n", text, flags=re.M)[1:] if b.rstrip().endswith("ph = 1")]
+    allblocks = re.split(r"^State \d+:\n", text, flags=re.M)[1:]
+    blocks = [b for b in allblocks if L.laid_out(b)]
     del text
-    if len(blocks) * 2 != res.distinct:
-        raise MachineryError(f"state dump of {fam} has {len(blocks)} laid-out states, TLC reports {res.distinct} states")
+    if len(allblocks) != res.distinct or not blocks:
+        raise MachineryError(f"state dump of {fam} has {len(allblocks)} states, TLC reports {res.distinct} states")
     if fam in GITBUILD_FROM[ctx.tier]:
         ctx._c11_blocks = getattr(ctx, "_c11_blocks", []) + blocks
     n = max(1, min(400, (len(blocks) + PROCS * 4 - 1) // (PROCS * 4)))
@@ -469,6 +632,8 @@ def report_family_failures(ctx, fam, fails):
                 extra = (extra + " " + hashlib.sha1(json.dumps(f["key"], default=repr).encode()).hexdigest()[:8]).strip() \
                     if not L.features(f["effv"], ents) else extra
             sig, feats = signature(cl, f["effv"], ents, extra)
+            if f.get("hist"):
+                sig, feats = f"dulwich/index.py:Index.write|{cl}|v{f['effv']} {f['hist']}", ""
             if cl == SHORT_TRAILER:
                 sig, feats = SHORT_TRAILER_SIG, ""
             report(ctx, sig, f"[{fam}] {cl}: {detail[:600]}",
@@ -564,6 +729,38 @@ def make_git_traces(W, tid, path, label, sparse=False, cwd=None, rewrite=True):
             os.unlink(p2)
         out.append(t2)
     return out
+
+
+def make_hist_trace(W, tid, path, edits, label, sparse=False, cwd=None):
+    """A file written by C git, read by dulwich, edited by re-slotting the objects read, written again."""
+    from dulwich.index import Index
+    with open(path, "rb") as f:
+        data = f.read()
+    gl, err = W.git.ls(path, sparse=sparse, cwd=cwd)
+    pj = L.proj_parse(data)
+    if gl is None or not pj["ok"]:
+        raise MachineryError(f"cannot list git's own index ({label}): {err} {pj['why']}")
+    hv = struct.unpack(">I", data[4:8])[0]
+    t = blank_trace(tid, "hist")
+    t.update(hv=hv, v=hv, ents=gl, edits=edits, _label=label,
+             exts=[{"sig": L.bytes_to_runs(s), "data": L.bytes_to_runs(d)} for s, d in pj["exts"]])
+    p2 = W.path("hi")
+    shutil.copyfile(path, p2)
+    try:
+        idx = Index(p2)
+        apply_edits(idx, edits)
+        idx.write()
+        with open(p2, "rb") as f:
+            b = f.read()
+        observe_file(W, t, p2, b, False, sparse=sparse, cwd=cwd)
+        if cwd is not None:
+            t["fsckok"], t["_fsck"] = W.git.fsck_index_ok(p2, cwd=cwd)
+    except Exception as e:  # noqa: BLE001
+        t["wrote"] = False
+        t["_wexc"] = f"{exc_name(e)}: {e}"
+    if os.path.exists(p2):
+        os.unlink(p2)
+    return t
 
 
 def make_gitbuilt_traces(W, tid, v, ents, label):
@@ -713,6 +910,19 @@ def _gitbuild_blocks(args):
         tid += 2
         if o is None or not o["ins"] or o["exts"]:
             continue
+        if o["h"]["hist"]:
+            # the enumerated history on a base index that git built (what git can be told of it)
+            base = [dict(e, ita=False, xbit=False) for e in o["h"]["bins"]]
+            pb = W.path("gb")
+            if W.git.build(pb, o["v"], base) is not None:
+                skipped += 1
+                continue
+            t = make_hist_trace(W, tid, pb, o["h"]["eds"], "update-index --index-info (TLC history)")
+            t["_input"] = {"v": o["v"], "ents": base, "edits": o["h"]["eds"]}
+            os.unlink(pb)
+            out.append([t])
+            keys.append(("hist", o["v"], edits_str(o["h"]["eds"]), tuple(sorted(L.entry_key(e) for e in base))))
+            continue
         ents = [dict(e, ita=False, xbit=False) for e in o["ins"]]
         key = (o["v"], tuple(sorted((L.runs_to_bytes(e["name"]), e["stage"], L.limbs_to_int(e["mode"]), e["valid"] and e["stage"] == 0,
                                      e["skip"] and e["stage"] == 0) for e in ents)))
@@ -776,6 +986,9 @@ def validate_traces(ctx, traces, label):
                 extra = ""
                 if not feats:
                     extra = hashlib.sha1(json.dumps(t["ents"], sort_keys=True).encode()).hexdigest()[:8]
+                if t["kind"] == "hist":
+                    clause = f"{clause}(history)" if not clause.startswith("WriteRaises") and clause != "Checksum" else clause
+                    extra = (f"history edits={edits_str(t['edits'])} " + extra).strip()
                 if t["kind"] != "dw" and lab and not lab.startswith("update-index"):
                     extra = (extra + " " + lab.replace(" ", "_")).strip()
                 sig, _ = signature(clause, v, t["ents"], extra, feats=feats)
@@ -786,6 +999,7 @@ def validate_traces(ctx, traces, label):
                 report(ctx, sig, f"[trace {t['kind']} {lab}] {clause}: {detail[:500]}",
                               {"mode": "T", "clause": clause, "kind": t["kind"], "label": lab, "features": feats,
                                "input": t.get("_input") or {"v": t["v"], "skip": t["skip"], "ents": t["ents"]},
+                               "edits": t.get("edits"),
                                "scenario": t.get("_scenario")})
             if shape and not prop:
                 ctx.drift_event(f"[trace {t['kind']} {lab}] file differs from the specified layout while every observable agrees "
@@ -838,6 +1052,7 @@ def mode_traces(ctx):
     ctx.cov["traces"] = {"dulwich_written": sum(1 for t in traces if t["kind"] == "dw"),
                          "git_written_read_by_dulwich": sum(1 for t in traces if t["kind"] == "git"),
                          "git_written_rewritten_by_dulwich": sum(1 for t in traces if t["kind"] == "rw"),
+                         "git_written_edited_by_history": sum(1 for t in traces if t["kind"] == "hist"),
                          "git_refused_to_build": skipped}
     for t in traces:
         if t["kind"] == "dw" and len(t["ents"]) >= 3 and t.get("_profile") == "plain":
@@ -857,6 +1072,16 @@ def mode_scenarios(ctx):
     labels = []
     for label, path, cwd, sparse in SC.scenarios(W.git, W.root, thorough=not ctx.quick, seed=ctx.seed):
         ts = make_git_traces(W, tid, path, label, sparse=sparse, cwd=cwd)
+        if not sparse and len(ts[0]["ents"]) <= 80 and ts[0]["rbok"]:
+            rng = random.Random(f"{ctx.seed}:{label}")
+            for j in range(ctx.pick(2, 12)):
+                eds = pick_edits(rng, ts[0]["ents"], 1 + j % 2)
+                if eds:
+                    tid += 1
+                    th = make_hist_trace(W, tid + 1, path, eds, label, sparse=sparse, cwd=cwd)
+                    th["_input"] = {"edits": eds}
+                    ts.append(th)
+                    tid += 1
         for t in ts:
             t["_scenario"] = label
         traces += ts
@@ -881,9 +1106,9 @@ def consts(fam, maxkeys, namemask=4095, defect="none"):
 
 FAMILIES = {
     "quick": [("quick", 2, 13)],
-    "thorough": [("names", 2, 7), ("namesq", 3, 23), ("names3", 3, 23), ("flags", 2, 3), ("stat", 2, 3), ("exts", 3, 0)],
+    "thorough": [("names", 2, 7), ("namesq", 3, 23), ("names3", 3, 23), ("flags", 2, 3), ("stat", 2, 3), ("exts", 3, 0), ("hist", 0, 0)],
 }
-GITBUILD_FROM = {"quick": ["quick"], "thorough": ["names", "namesq", "flags"]}
+GITBUILD_FROM = {"quick": ["quick"], "thorough": ["names", "namesq", "flags", "hist"]}
 
 
 def run(ctx):
@@ -903,6 +1128,10 @@ def run(ctx):
         ctx.add_tlc(f"{cfg} (negative control: {what})", r, require_ok=False)
         if "ParseInv" not in r.violated and "Evaluating invariant ParseInv failed" not in r.output:
             raise MachineryError(f"negative control {cfg} did not break ParseInv")
+    r = tlc.run("IndexFmt.tla", "IndexFmt_neg_stalestage.cfg", workers=4, timeout=600)
+    ctx.add_tlc("IndexFmt_neg_stalestage.cfg (negative control: written stage = slot OR stage bits carried by the entry object)", r, require_ok=False)
+    if "StageFromSlot" not in r.violated:
+        raise MachineryError("negative control IndexFmt_neg_stalestage.cfg did not break StageFromSlot")
     if not git_available():
         ctx.assumptions.append("C git not found: every git-dependent clause degraded to specification vs dulwich only")
     # 2. spec -> code on every enumerated case
@@ -944,7 +1173,10 @@ def replay(ctx, path):
         print(f"  family {obj['family']}  v={out['v']} effv={out['effv']} skipHash={out['skip']} extensions={len(out['exts'])}")
         for e in out["expect"]:
             print("   entry:", L.describe(e))
-        r = check_exts_case(W, out) if obj["family"] == "exts" else check_case(W, out, do_damage=obj["clause"].startswith("ChecksumDetects"))
+        if out["h"]["hist"]:
+            print("  history: base", [L.describe(e) for e in out["h"]["bins"]][::-1], "\n  edits:", edits_str(out["h"]["eds"]))
+        r = check_hist_case(W, out) if out["h"]["hist"] else check_exts_case(W, out) if out["exts"] \
+            else check_case(W, out, do_damage=obj["clause"].startswith("ChecksumDetects"))
         for cl, d in r["fails"]:
             print(f"  FAIL {cl}: {d[:700]}")
         if r["drift"]:
@@ -958,7 +1190,14 @@ def replay(ctx, path):
             ts = []
             for label, p, cwd, sparse in SC.scenarios(W.git, W.root, thorough=True, seed=obj.get("seed", 0)):
                 if label == obj["scenario"]:
-                    ts = make_git_traces(W, 1, p, label, sparse=sparse, cwd=cwd)
+                    ts = [make_hist_trace(W, 1, p, obj["edits"], label, sparse=sparse, cwd=cwd)] if obj["kind"] == "hist" \
+                        else make_git_traces(W, 1, p, label, sparse=sparse, cwd=cwd)
+        elif obj["kind"] == "hist":
+            pb = W.path("gb")
+            err = W.git.build(pb, inp["v"], inp["ents"])
+            ts = [] if err else [make_hist_trace(W, 1, pb, inp["edits"], obj.get("label", "replay"))]
+            if err:
+                print("  git refused to build the base index:", err)
         elif obj["kind"] == "dw":
             ts = [make_dw_trace(W, 1, inp["v"], inp["skip"], inp["ents"])]
         else:
@@ -966,6 +1205,8 @@ def replay(ctx, path):
             if err:
                 print("  git refused to build the index:", err)
         for t in ts:
+            if t["kind"] == "hist":
+                print("  edits:", edits_str(t["edits"]))
             print(f"  trace kind={t['kind']} v={t['v']} hv={t['hv']} entries={len(t['ents'])} wrote={t['wrote']} rbok={t['rbok']} glok={t['glok']} "
                   f"{t.get('_wexc', '')} {t.get('_rbexc', '')} {t.get('_glerr', '')}")
             for e in t["ents"][:8]:
